@@ -1,4 +1,5 @@
 import OmplModel.Proofs.Soln
+import OmplModel.Proofs.RRTstar
 /-!
 C04 — reported solution costs are truthful, admissible-bounded and only improve: the parts of the
 property that are statements about the problem definition's data structure (A) and about the cost
@@ -243,5 +244,121 @@ theorem combine_monotone_minimax {better : α → α → Bool} (hb : IsSWO bette
       have := hb.trans h1 h3
       simp_all
   · exact hb.irrefl c
+
+/-! ## Round 3: `geometric::RRTstar` (default settings) inside the model
+
+`run o sp (St.init o sp) ops` is the planner after ANY history `ops` of added start states, oracle answers,
+(re-)entered `solve()` calls and loop passes — every script, every interruption point, every continued
+solve.  `Laws o`: `isCostBetterThan` is a strict weak order, `combine c identity = c`, motion costs never
+improve a cost, `infiniteCost()` is not better than anything. -/
+section RRTstar
+open OmplModel.RRTstar
+variable {σ δ : Type}
+
+/-- `bestCost_` never gets worse: over loop passes, across interruption and across continued solves. -/
+theorem rrtstar_best_cost_monotone {o : Obj σ α} (L : Laws o) (sp : Space σ δ) (ops₁ ops₂ : List (Op σ δ)) :
+    o.better (run o sp (St.init o sp) ops₁).bestCost (run o sp (St.init o sp) (ops₁ ++ ops₂)).bestCost = false := by
+  have h1 := run_mono L sp (St.init o sp) ops₁ (init_bestInv o sp)
+  have h2 := run_mono L sp (run o sp (St.init o sp) ops₁) ops₂ h1.2
+  have : run o sp (St.init o sp) (ops₁ ++ ops₂) = run o sp (run o sp (St.init o sp) ops₁) ops₂ := by
+    simp [run, List.foldl_append]
+  rw [this]
+  exact h2.1
+
+/-- … and as long as there is no goal motion it is still `infiniteCost()` (so an approximate solution
+is flagged `isSatisfied(infiniteCost())`, see below). -/
+theorem rrtstar_no_goal_infinite {o : Obj σ α} (L : Laws o) (sp : Space σ δ) (ops : List (Op σ δ)) :
+    (run o sp (St.init o sp) ops).bestGoal = none → (run o sp (St.init o sp) ops).bestCost = o.infinite :=
+  (run_mono L sp (St.init o sp) ops (init_bestInv o sp)).2
+
+/-- what `solve()` registers, as coded: `optimized_ = isSatisfied(bestCost_)`; the solution is
+approximate exactly when there is no goal motion; the stored cost is the cost field of the reported
+motion (`bestGoalMotion_`, else `approxGoalMotion`), NOT `bestCost_`.  For an approximate solution the flag
+is therefore `isSatisfied(infiniteCost())` whatever the stored cost. -/
+theorem rrtstar_optimized_flag {o : Obj σ α} (L : Laws o) (sp : Space σ δ) (ops : List (Op σ δ)) (r : Report σ α δ)
+    (h : report o (run o sp (St.init o sp) ops) = some r) :
+    r.optimized = o.isSatisfied (run o sp (St.init o sp) ops).bestCost ∧
+    r.approximate = (run o sp (St.init o sp) ops).bestGoal.isNone ∧
+    (r.approximate = true → r.optimized = o.isSatisfied o.infinite) ∧
+    (∃ n nm, (match (run o sp (St.init o sp) ops).bestGoal with
+        | some g => some g
+        | none => (run o sp (St.init o sp) ops).approxGoal) = some n ∧
+      (run o sp (St.init o sp) ops).motions[n]? = some nm ∧ r.storedCost = nm.cost) := by
+  obtain ⟨h1, h2, n, nm, h3, h4, h5, _⟩ := report_spec h
+  refine ⟨h1, h2, ?_, n, nm, h3, h4, h5⟩
+  intro ha
+  rw [h1, rrtstar_no_goal_infinite L sp ops]
+  rw [h2] at ha
+  cases hb : (run o sp (St.init o sp) ops).bestGoal with
+  | none => rfl
+  | some g => rw [hb] at ha; simp at ha
+
+/-- PARTIAL. Full statement wanted: for every `ops`, an exact report has
+`optimized = isSatisfied storedCost`.  Proved here under the hypothesis that the incumbent bookkeeping
+is in sync (`bestCost_` is the best goal motion's current cost) — which the lock-step run and the
+oracle check on every real run (`stored == bestCost_`), but which is not yet proved for every script
+(it needs: costs only improve under `updateChildCosts`, and a linear order on costs). -/
+theorem rrtstar_optimized_flag_partial {o : Obj σ α} (s : St σ α δ) (r : Report σ α δ) (h : report o s = some r)
+    (hexact : r.approximate = false)
+    (hsync : ∀ g gm, s.bestGoal = some g → s.motions[g]? = some gm → gm.cost = s.bestCost) :
+    r.optimized = o.isSatisfied r.storedCost := by
+  obtain ⟨h1, h2, n, nm, h3, h4, h5, _⟩ := report_spec h
+  rw [h2] at hexact
+  cases hb : s.bestGoal with
+  | none => rw [hb] at hexact; simp at hexact
+  | some g =>
+    rw [hb] at h3
+    simp only [Option.some.injEq] at h3
+    subst h3
+    rw [h1, h5, hsync g nm hb h4]
+
+/-- PARTIAL (conditional on the cost invariant, which is checked on every real run but not yet proved
+for every script): if every motion obeys `cost = combine(parent.cost, incCost)`,
+`incCost = motionCost(parent.state, state)`, starts have the identity cost, and the parent chain of the
+reported motion reaches a start, then the cost stored with the reported solution IS the cost of the
+reported path under the objective (`PathGeometric::cost`: the fold of `motionCost` with `combine`,
+identity initial and terminal cost) — C04's "equals it for planners that do not defer cost propagation". -/
+theorem rrtstar_stored_cost_truthful_partial {o : Obj σ α} (L : Laws o) (s : St σ α δ) (r : Report σ α δ)
+    (h : report o s = some r) (hinv : ∀ j, CostOK o s.motions j)
+    (hcomplete : ∀ n, (match s.bestGoal with | some g => some g | none => s.approxGoal) = some n →
+      Complete s.motions s.motions.size n) :
+    r.storedCost = pathCost (algOf o) o.motionCost (fun _ => o.identity) (fun _ => o.identity)
+      (statesOf s.motions r.pathIdx) := by
+  obtain ⟨_, _, n, nm, h3, h4, h5, h6⟩ := report_spec h
+  obtain ⟨l, hl, hc⟩ := chain_cost o s.motions hinv s.motions.size n nm h4 (hcomplete n h3)
+  rw [h5, h6, hl, hc]
+  cases hl' : l ++ [nm.state] with
+  | nil => simp at hl'
+  | cons a rest =>
+    simp only [pathCost, algOf]
+    exact (L.id_right _).symm
+
+/-- PARTIAL (the algebraic heart of "rewiring keeps a tree"): a motion whose cost is an ancestor cost
+`a` extended by motion costs (`Desc`, which is what the cost invariant says of every descendant) can never
+offer that ancestor a strictly better cost, so the strict test of the rewiring loop never re-parents an
+ancestor of the new motion under it.  Not yet proved: the induction over `rewireOne`/`updateChildCosts`
+that turns this into "every parent chain ends at a start" for every script. -/
+theorem rrtstar_tree_inv_partial {o : Obj σ α} (L : Laws o) {a c : α} (h : Desc o a c) (x y : σ) :
+    o.better (o.combine c (o.motionCost x y)) a = false :=
+  ancestor_not_beaten L h x y
+
+/-- a concrete instance of the laws: additive costs over ℕ with `<`. -/
+def natObj : Obj Nat Nat :=
+  { identity := 0, infinite := 1000000, combine := (· + ·), better := fun a b => decide (a < b),
+    motionCost := fun a b => (a - b) + (b - a), symmetric := true, threshold := 0 }
+
+example : CostOK natObj #[⟨0, none, 0, 0, [1], false⟩, ⟨3, some 0, 3, 3, [], false⟩] 1 := by
+  intro m hm
+  simp at hm
+  subst hm
+  exact ⟨⟨0, none, 0, 0, [1], false⟩, by simp, by simp [natObj], by simp [natObj]⟩
+
+def natSt : St Nat Nat Nat :=
+  { motions := #[⟨0, none, 0, 0, [1], false⟩, ⟨3, some 0, 3, 3, [], true⟩], goalMotions := [1],
+    bestGoal := some 1, bestCost := 3, approxDist := 0 }
+
+example : (report natObj natSt).map (·.storedCost) = some 3 := by decide
+
+end RRTstar
 
 end OmplModel.Props.C04
